@@ -189,6 +189,17 @@ func c19PeerCred(p *c19PKI, c c19Case) (cred *tls.Certificate, chainOK bool) {
 	panic("unknown peer class " + c.Peer)
 }
 
+// c19BuildOthers: a proxy process holds several TLS blocks (inbound/outbound, TCP/mux, intra-proxy). After the
+// configuration under test has been built, differently configured ones are built in the same process - verification the
+// other way round, with and without own certificate, for both roles; they must not leak into the one under test.
+func c19BuildOthers(p *c19PKI, under TLSConfig) {
+	other := TLSConfig{CertificatePath: p.ownCert, KeyPath: p.ownKey, RemoteCAPath: p.bundlePath, SkipCAVerification: !under.SkipCAVerification, CAServerName: "other.example"}
+	_, _ = GetServerTLSConfig(other, log.NewNoopLogger())
+	_, _ = GetClientTLSConfig(other)
+	other2 := TLSConfig{SkipCAVerification: !under.SkipCAVerification, CAServerName: "another.example"}
+	_, _ = GetClientTLSConfig(other2)
+}
+
 // c19Handshake connects client and server configs over loopback and reports whether the connection was completed:
 // both handshakes succeeded and one application byte travelled client->server and one back.
 func c19Handshake(srvCfg, cliCfg *tls.Config) (connected bool, detail string, harness error) {
@@ -265,6 +276,7 @@ func c19Run(t *testing.T, c c19Case) (viol string, harness error) {
 		if err != nil || srvCfg == nil {
 			return "", fmt.Errorf("GetServerTLSConfig: %v", err)
 		}
+		c19BuildOthers(p, cfg)
 		cliCfg := &tls.Config{InsecureSkipVerify: true, MaxVersion: maxVer}
 		if cred != nil {
 			if c.Hint {
@@ -295,6 +307,7 @@ func c19Run(t *testing.T, c c19Case) (viol string, harness error) {
 	if err != nil || cliCfg == nil {
 		return "", fmt.Errorf("GetClientTLSConfig: %v", err)
 	}
+	c19BuildOthers(p, cfg)
 	if cred == nil {
 		return "", fmt.Errorf("server peers always present a certificate")
 	}
